@@ -38,6 +38,12 @@ pub const KINDS: &[Kind] = &[
     Kind { name: "slow_interval0", status: 400, ct: J, body: r#"{"interval":0,"error_description":"x","error":"slow_down"}"# },
     Kind { name: "slow_retry", status: 429, ct: J, body: r#"{"error":"slow_down","retry_after":1,"Retry-After":"0","interval":3600}"# },
     Kind { name: "pending_interval", status: 400, ct: J, body: r#"{"error":"authorization_pending","interval":1,"expires_in":1}"# },
+    Kind { name: "invalid_client", status: 401, ct: J, body: r#"{"error":"invalid_client"}"# },
+    Kind { name: "invalid_client400", status: 400, ct: J, body: r#"{"error":"invalid_client","error_description":"bad credentials"}"# },
+    Kind { name: "invalid_request", status: 400, ct: J, body: r#"{"error":"invalid_request"}"# },
+    Kind { name: "invalid_scope", status: 400, ct: J, body: r#"{"error":"invalid_scope"}"# },
+    Kind { name: "unauthorized_client", status: 403, ct: J, body: r#"{"error":"unauthorized_client"}"# },
+    Kind { name: "unsupported_grant_type", status: 400, ct: None, body: r#"{"error":"unsupported_grant_type"}"# },
 ];
 pub fn find(name: &str) -> Option<&'static Kind> {
     KINDS.iter().find(|k| k.name == name)
@@ -50,7 +56,13 @@ impl std::fmt::Display for FakeError {
         write!(f, "fake transport error {}", self.0)
     }
 }
-impl std::error::Error for FakeError {}
+impl std::error::Error for FakeError {
+    // (the caller's error has a cause, as real transports' errors do: a timed-out socket operation)
+    fn source(&self) -> Option<&(dyn std::error::Error + 'static)> {
+        static CAUSE: std::sync::OnceLock<std::io::Error> = std::sync::OnceLock::new();
+        Some(CAUSE.get_or_init(|| std::io::Error::new(std::io::ErrorKind::TimedOut, "operation timed out")))
+    }
+}
 
 pub fn response_of(k: &Kind) -> Result<oauth2::HttpResponse, FakeError> {
     if k.status == 0 {
